@@ -112,6 +112,13 @@ func peach(fm *Frame, opts peachOpt, f Callable, inputs Inputs) error {
 				atomic.StoreInt32(&broken, 1)
 				return
 			}
+			// A callback that finished while we were waiting for its slot may
+			// have broken the loop; with one worker this makes peach start no
+			// callback after a break or failure, exactly like each.
+			if atomic.LoadInt32(&broken) != 0 {
+				workerSema.Release(1)
+				return
+			}
 		}
 		wg.Add(1)
 		go func() {
